@@ -223,6 +223,9 @@ pp_twprge_ocr_scrub = re.compile(
 # of Twp/Rge's in the preprocessor.)
 pm_regex = re.compile(
     r"""
+    # Must not begin in the middle of a word (e.g. the 'pm' in 'equipment').
+    (?<![A-Za-z])
+
     # Abbreviated 'P.M.'
     ((P\.?\s{0,10}M\.?)
     
@@ -232,6 +235,9 @@ pm_regex = re.compile(
     # Spelled out (allowing for some misspelling).
     (P{1,2}r{1,2}i{0,2}n{0,2}c{0,2}i{0,2}p{0,2}a{0,2}l{0,2}\s
     {0,10}M{1,2}e{0,2}r{0,2}i{0,2}d{0,2}i{0,2}a{0,2}n{0,2}))
+
+    # Must not end in the middle of a word, either.
+    (?![A-Za-z])
     """, re.IGNORECASE | re.VERBOSE)
 
 
